@@ -833,4 +833,154 @@ theorem setAt_spec {c : Cfg α} {s : SV α} {vs : List α} (h : Abs c s vs) (i :
       ((vs.set i x).map Slot.alive) tl (by rw [hset]; simp [List.append_assoc]) (by rw [hbs]; simp)
       (fun _ => noRaw_map_alive _) ht (by simp [hsz])
 
+/-! ### assignment -/
+
+theorem assignCopy_spec {c : Cfg α} {dst src : SV α} {vs : List α} (hd : WF c dst) (h : Abs c src vs) :
+    ∃ d', assignCopy c dst src = .ok d' ∧ Abs c d' vs := by
+  obtain ⟨els, hr⟩ := hd
+  have hsz : vs.length = src.size := by simpa using h.size_eq
+  have hread := contents_ok h
+  unfold contents at hread
+  obtain ⟨tl, hb, ht⟩ := hr.tail
+  by_cases hc : dst.cap c < src.size
+  · -- a new block
+    have m := constructRange_ok (buf := List.replicate src.size (Slot.raw : Slot α)) (pos := 0) c.trivial []
+      (List.replicate src.size Slot.raw) [] vs (by simp) rfl (by simp [hsz]) (fun _ => allRaw_replicate _)
+    have hres : Abs c { loc := dst.loc, heap := some ([] ++ vs.map Slot.alive ++ []), size := src.size } vs :=
+      ⟨hr.loc_len, hr.loc_live, by simp [hsz], fun _ => noRaw_map_alive _, ⟨[], by simp [SV.buf], tailOK_nil _ _⟩⟩
+    refine ⟨_, ?_, hres⟩
+    cases hh : dst.heap with
+    | some b0 =>
+      unfold assignCopy
+      simp only [hread, hc, if_true, hh, hr.freeHeap_ok b0 hh, m, bind, Except.bind, pure, Except.pure]
+    | none =>
+      unfold assignCopy
+      simp only [hread, hc, if_true, hh, m, bind, Except.bind, pure, Except.pure]
+  · have hcap : src.size ≤ dst.buf.length := by rw [← hr.cap]; omega
+    cases hh : dst.heap with
+    | none =>
+      have hloc : dst.isLocal = true := by simp [SV.isLocal, hh]
+      have hbuf : dst.buf = dst.loc := by simp [SV.buf, hh]
+      obtain ⟨L1, L2, hls, hL1⟩ := split2 dst.loc src.size (by rw [← hbuf]; exact hcap)
+      have hlive : c.trivial = false → NoRaw (L1 ++ L2) := fun htv => hls ▸ hr.loc_live htv
+      have m := assignRange_ok (buf := dst.loc) (pos := 0) c.trivial [] L1 L2 vs (by simpa using hls) rfl
+        (by omega) (fun htv => (hlive htv).left)
+      refine ⟨{ dst with loc := [] ++ vs.map Slot.alive ++ L2, size := src.size }, ?_, ?_⟩
+      · unfold assignCopy
+        simp only [hread, hc, if_false, hh, m, bind, Except.bind, pure, Except.pure]
+      · refine ⟨?_, ?_, by simp [hsz], fun _ => noRaw_map_alive _, ⟨L2, by simp [SV.buf, hh], ?_⟩⟩
+        · have := hr.loc_len; rw [hls] at this; simp at this ⊢; omega
+        · intro htv; exact NoRaw.append (NoRaw.append NoRaw.nil (noRaw_map_alive _)) (hlive htv).right
+        · intro htv; simp only [SV.isLocal, hh]; simpa using (hlive htv).right
+    | some hb0 =>
+      have hloc : dst.isLocal = false := by simp [SV.isLocal, hh]
+      have hbuf : dst.buf = hb0 := by simp [SV.buf, hh]
+      cases htv : c.trivial with
+      | true =>
+        obtain ⟨L1, L2, hls, hL1⟩ := split2 hb0 src.size (by rw [← hbuf]; exact hcap)
+        have m := assignRange_ok (buf := hb0) (pos := 0) true [] L1 L2 vs (by simpa using hls) rfl
+          (by omega) (fun hf => by cases hf)
+        refine ⟨{ dst with heap := some ([] ++ vs.map Slot.alive ++ L2), size := src.size }, ?_, ?_⟩
+        · unfold assignCopy
+          simp only [hread, hc, if_false, hh, htv, if_true, m, bind, Except.bind, pure, Except.pure]
+        · exact ⟨hr.loc_len, hr.loc_live, by simp [hsz], fun _ => noRaw_map_alive _,
+            ⟨L2, by simp [SV.buf], fun hf => by rw [htv] at hf; cases hf⟩⟩
+      | false =>
+        have htl : AllRaw tl := by have := ht htv; rw [hloc] at this; simpa using this
+        rw [hbuf] at hb
+        by_cases hlt : src.size < dst.size
+        · -- shrink: destroy the surplus, assign the rest
+          obtain ⟨E1, E2, hes, hE1⟩ := split2 els src.size (by rw [hr.size_eq]; omega)
+          subst hes
+          have hlive := hr.els_live htv
+          have m1 := destroyRange_ok (buf := hb0) (pos := src.size) (n := dst.size - src.size) E1 E2 tl hb
+            hE1.symm (by have := hr.size_eq; simp at this; omega) hlive.right
+          have m2 := assignRange_ok (buf := E1 ++ List.replicate (dst.size - src.size) Slot.raw ++ tl) (pos := 0)
+            false [] E1 (List.replicate (dst.size - src.size) Slot.raw ++ tl) vs (by simp) rfl (by omega)
+            (fun _ => hlive.left)
+          refine ⟨{ dst with heap := some ([] ++ vs.map Slot.alive ++ (List.replicate (dst.size - src.size) Slot.raw ++ tl)), size := src.size }, ?_, ?_⟩
+          · unfold assignCopy
+            simp only [hread, hc, if_false, hh, htv, hlt, if_true, m1, m2, bind, Except.bind, pure, Except.pure,
+              Bool.false_eq_true]
+          · refine ⟨hr.loc_len, hr.loc_live, by simp [hsz], fun _ => noRaw_map_alive _,
+              ⟨List.replicate (dst.size - src.size) Slot.raw ++ tl, by simp [SV.buf], ?_⟩⟩
+            intro _; simp only [SV.isLocal]; simp
+            exact AllRaw.append (allRaw_replicate _) htl
+        · -- assign onto the live prefix, construct the rest on raw memory
+          have hels : els.length = dst.size := hr.size_eq
+          have htlen : src.size - dst.size ≤ tl.length := by
+            have := congrArg List.length hb; simp at this; rw [hbuf] at hcap; omega
+          obtain ⟨T1, T2, hts, hT1⟩ := split2 tl (src.size - dst.size) htlen
+          subst hts
+          have m1 := assignRange_ok (buf := hb0) (pos := 0) false [] els (T1 ++ T2) (vs.take dst.size)
+            (by simpa using hb) rfl (by simp; omega) (fun _ => hr.els_live htv)
+          have m2 := constructRange_ok (buf := [] ++ (vs.take dst.size).map Slot.alive ++ (T1 ++ T2)) (pos := dst.size)
+            false ([] ++ (vs.take dst.size).map Slot.alive) T1 T2 (vs.drop dst.size)
+            (by simp only [List.append_assoc]) (by simp; omega) (by simp; omega) (fun _ => htl.left)
+          refine ⟨{ dst with heap := some ([] ++ (vs.take dst.size).map Slot.alive ++ (vs.drop dst.size).map Slot.alive ++ T2), size := src.size }, ?_, ?_⟩
+          · unfold assignCopy
+            simp only [hread, hc, if_false, hh, htv, hlt, m1, m2, bind, Except.bind, pure, Except.pure,
+              Bool.false_eq_true]
+          · refine ⟨hr.loc_len, hr.loc_live, by simp [hsz], fun _ => noRaw_map_alive _, ⟨T2, ?_, ?_⟩⟩
+            · simp only [SV.buf, List.nil_append]
+              rw [← List.map_append, List.take_append_drop]
+            · intro _; simp only [SV.isLocal]; simp; exact htl.right
+
+theorem assignMove_spec {c : Cfg α} {dst src : SV α} {vs : List α} (hd : WF c dst) (h : Abs c src vs) :
+    ∃ d' s', assignMove c dst src = .ok (d', s') ∧ Abs c d' vs ∧ WF c s' := by
+  obtain ⟨els, hr⟩ := hd
+  have hsz : vs.length = src.size := by simpa using h.size_eq
+  obtain ⟨tl, hb, ht⟩ := h.tail
+  have hfree : (match dst.heap with
+      | some b => freeHeap c b dst.size
+      | none => (pure () : M Unit)) = .ok () := by
+    cases hh : dst.heap with
+    | some b => exact hr.freeHeap_ok b hh
+    | none => rfl
+  by_cases hn : src.size ≤ c.S
+  · have m1 := moveOutRange_ok (buf := src.buf) (pos := 0) (n := src.size) c.trivial [] vs tl
+      (by simpa using hb) rfl hsz.symm
+    obtain ⟨L1, L2, hls, hL1⟩ := split2 dst.loc src.size (by rw [hr.loc_len]; exact hn)
+    have hlive : c.trivial = false → NoRaw (L1 ++ L2) := fun htv => hls ▸ hr.loc_live htv
+    have m2 := assignRange_ok (buf := dst.loc) (pos := 0) c.trivial [] L1 L2 vs (by simpa using hls) rfl
+      (by omega) (fun htv => (hlive htv).left)
+    refine ⟨{ loc := [] ++ vs.map Slot.alive ++ L2, heap := none, size := src.size }, _, ?_, ?_,
+      moved_from_wf h tl hb ht⟩
+    · unfold assignMove
+      cases hh : dst.heap with
+      | some b =>
+        simp only [hr.freeHeap_ok b hh, hn, if_true, m1, m2, bind, Except.bind, pure, Except.pure]
+      | none =>
+        simp only [hn, if_true, m1, m2, bind, Except.bind, pure, Except.pure]
+    · refine ⟨?_, ?_, by simp [hsz], fun _ => noRaw_map_alive _, ⟨L2, by simp [SV.buf], ?_⟩⟩
+      · have := hr.loc_len; rw [hls] at this; simp at this ⊢; omega
+      · intro htv; exact NoRaw.append (NoRaw.append NoRaw.nil (noRaw_map_alive _)) (hlive htv).right
+      · intro htv; simp only [SV.isLocal]; simpa using (hlive htv).right
+  · obtain ⟨hb0, hh⟩ := heap_of_big h hn
+    have hbuf : src.buf = hb0 := by simp [SV.buf, hh]
+    have hloc : src.isLocal = false := by simp [SV.isLocal, hh]
+    refine ⟨{ loc := dst.loc, heap := some hb0, size := src.size },
+            { loc := src.loc, heap := none, size := 0 }, ?_, ?_, ?_⟩
+    · unfold assignMove
+      cases hd : dst.heap with
+      | some b =>
+        simp only [hr.freeHeap_ok b hd, hn, if_false, hh, bind, Except.bind, pure, Except.pure]
+      | none =>
+        simp only [hn, if_false, hh, bind, Except.bind, pure, Except.pure]
+    · refine ⟨hr.loc_len, hr.loc_live, h.size_eq, h.els_live, ⟨tl, ?_, ?_⟩⟩
+      · simp only [SV.buf]; rw [← hbuf, hb]
+      · rw [hloc] at ht; simpa [SV.isLocal] using ht
+    · exact ⟨[], h.loc_len, h.loc_live, rfl, fun _ => NoRaw.nil,
+        ⟨src.loc, by simp [SV.buf], fun htv => by simpa [SV.isLocal] using h.loc_live htv⟩⟩
+
+/-! ### comparison -/
+
+theorem svEq_spec [DecidableEq α] {c : Cfg α} {a b : SV α} {la lb : List α} (ha : Abs c a la) (hb : Abs c b lb) :
+    svEq a b = .ok (decide (la = lb)) := by
+  simp only [svEq, contents_ok ha, contents_ok hb, bind, Except.bind, pure, Except.pure]
+
+theorem svLt_spec {c : Cfg α} (lt : α → α → Bool) {a b : SV α} {la lb : List α} (ha : Abs c a la)
+    (hb : Abs c b lb) : svLt lt a b = .ok (lexLt lt la lb) := by
+  simp only [svLt, contents_ok ha, contents_ok hb, bind, Except.bind, pure, Except.pure]
+
 end Vita.C20
